@@ -186,7 +186,7 @@ def run(ctx):
 
 
 MUTANTS = [
-    Mutant("git preview lists the directory once per child (fix 19970ae reverted)", GT, "            entry, is_versioned = self._transform.final_entry(child_trans_id)\n", "            entry, is_versioned = self._transform.final_entry(trans_id)\n", expect="preview-children-by-child-id"),
+    Mutant("git preview lists the directory once per child (fix 5b24378 reverted)", GT, "            entry, is_versioned = self._transform.final_entry(child_trans_id)\n", "            entry, is_versioned = self._transform.final_entry(trans_id)\n", expect="preview-children-by-child-id"),
     Mutant("unbounded resolution loop", TR, "        for n in range(10):\n            pb.update(gettext(\"Resolution pass\"), n + 1, 10)", "        n = 0\n        while True:\n            n += 1\n            pb.update(gettext(\"Resolution pass\"), n + 1, 10)", expect=["R1-bounded-loop", "R1-exits"]),
     Mutant("emitted kind renamed on one side", BT, "yield (\"duplicate\", last_trans_id, trans_id, name)", "yield (\"dup\", last_trans_id, trans_id, name)", expect="R2-emitted-kind-known"),
     Mutant("returns with conflicts left after the last pass", TR, "            new_conflicts.update(pass_func(tt, conflicts))\n        raise MalformedTransform(conflicts=conflicts)", "            new_conflicts.update(pass_func(tt, conflicts))\n        return new_conflicts", expect="R1-exits"),
